@@ -78,7 +78,16 @@ def check_case(ctx, case, enum=False, cls_hint=None):
         ctx.fail("vk-construct/%s" % exc_sig(e), case, repr(e))
         return
     try:
-        res = vk.verify_digest(_wrap(sig, mode), digest, sigdecode=DECODERS[dec], allow_truncate=at)
+        if case.get("precompute"):
+            vk = SU.make_vk(d, Q)
+            vk.precompute(lazy=case["precompute"] == "lazy")
+        if case.get("via_data") is not None:
+            # data path: digest must be hash(data); verify() hashes and delegates
+            hf = gen.HASHES[case["via_data"][0]]
+            res = vk.verify(_wrap(sig, mode), bytes.fromhex(case["via_data"][1]), hashfunc=hf,
+                            sigdecode=DECODERS[dec], allow_truncate=at)
+        else:
+            res = vk.verify_digest(_wrap(sig, mode), digest, sigdecode=DECODERS[dec], allow_truncate=at)
         got = ("ret", res)
     except BadSignatureError:
         got = ("badsig",)
@@ -155,6 +164,17 @@ def constructed(ctx, cname, per, seed):
                                  mode=i % 3), cls_hint=hint)
         go(r, s, "valid", altered=False)
         go(r, n - s, "valid-n-minus-s")
+        # the same verdicts through verify() on data, and with a precomputed table
+        hname = gen.HASH_NAMES[i % len(gen.HASH_NAMES)]
+        data = b"c02 data %d" % i
+        dg2 = gen.HASHES[hname](data).digest()
+        rs3 = rdsa.sign(d.ref, dd, k, SU.e_of(dg2, n, True))
+        if rs3 != "RS-ZERO":
+            for (rr, ss, hint) in ((rs3[0], rs3[1], "valid-via-data"), (rs3[0], (rs3[1] % (n - 1)) + 1, "altered-via-data")):
+                dc = "der" if (rr >= 256 ** l or ss >= 256 ** l) else dec
+                check_case(ctx, dict(base, digest=dg2.hex(), via_data=[hname, data.hex()], dec=dc, altered=True,
+                                     sig=SU.sig_to_json(SU.encode_ref(dc, rr, ss, n)),
+                                     precompute=(None, "lazy", "eager")[i % 3]), cls_hint=hint)
         for dr, ds in ((1, 0), (-1, 0), (0, 1), (0, -1)):
             go(r + dr, s + ds, "off-by-one")
         for rr, ss in ((0, s), (r, 0), (n, s), (r, n), (0, 0), (n, n), (r + n, s), (r, s + n), (n - r, s)):
